@@ -191,10 +191,10 @@ impl Node {
     }
 //@end
 
-//@begin fn src/node.rs impl:Node local_request props=C10
+//@begin fn src/node.rs impl:Node local_request props=C10,C11
     pub fn local_request(&mut self)
         ensures final(self).handle == old(self).handle,
-           final(self).abs() == f_local_request(old(self).abs(), clock()), // @C10.unanswered_counter
+           final(self).abs() == f_local_request(old(self).abs(), clock()), // @C10.unanswered_counter @C11.every_query_sent_to_a_stale_node_is_counted
            final(self).last_response == old(self).last_response, final(self).last_request == old(self).last_request,
            old(self).wf() ==> final(self).wf(),
            real(*old(self)) == real(*final(self)),
@@ -245,9 +245,9 @@ impl Node {
     }
 //@end
 
-//@begin fn src/node.rs impl:Node status props=C10,C08
+//@begin fn src/node.rs impl:Node status props=C10,C08,C11
     pub fn status(&self) -> (r: NodeStatus)
-        ensures r == self.status_at(clock()), // @C10.status_function
+        ensures r == self.status_at(clock()), // @C10.status_function @C11.two_unanswered_queries_make_a_stale_node_bad
     {
         broadcast use inst_sub_ax, duration_ord_ax;
         let curr_time = Instant::now();
